@@ -3,6 +3,7 @@ package main
 import (
 	"fmt"
 	"go/ast"
+	"go/constant"
 	"go/token"
 	"go/types"
 	"os"
@@ -470,4 +471,52 @@ func (u *Universe) isConstGlobal(v *types.Var) bool {
 		return u.Specs.ConstGlobals[pkgShort(v.Pkg())+"."+v.Name()]
 	}
 	return len(u.assignedGlobals[v]) == 0
+}
+
+// constInit: for a never-assigned package-level variable whose initialiser is a constant (possibly under a
+// conversion such as []byte("---")), the constant as a term; nil otherwise.
+func (u *Universe) constInit(v *types.Var) *Term {
+	p, ok := u.Pkgs[pkgShort(v.Pkg())]
+	if !ok {
+		return nil
+	}
+	for _, file := range p.Syntax {
+		for _, d := range file.Decls {
+			gd, ok := d.(*ast.GenDecl)
+			if !ok || gd.Tok != token.VAR {
+				continue
+			}
+			for _, sp := range gd.Specs {
+				vs := sp.(*ast.ValueSpec)
+				for i, n := range vs.Names {
+					if p.TypesInfo.Defs[n] != v || i >= len(vs.Values) {
+						continue
+					}
+					e := ast.Unparen(vs.Values[i])
+					if call, ok := e.(*ast.CallExpr); ok && len(call.Args) == 1 {
+						if tv, ok := p.TypesInfo.Types[call.Fun]; ok && tv.IsType() {
+							e = call.Args[0]
+						}
+					}
+					if tv, ok := p.TypesInfo.Types[e]; ok && tv.Value != nil {
+						switch tv.Value.Kind() {
+						case constant.String:
+							return StrLit(constant.StringVal(tv.Value))
+						case constant.Bool:
+							if constant.BoolVal(tv.Value) {
+								return True
+							}
+							return False
+						case constant.Int:
+							if n, ok := constant.Int64Val(tv.Value); ok {
+								return Num(int(n))
+							}
+						}
+					}
+					return nil
+				}
+			}
+		}
+	}
+	return nil
 }
